@@ -27,7 +27,7 @@ ASSUMPTIONS = [
 ]
 
 ALPHA = {
-    'bad': (1, [53, 65535, 65535]), 'full': 2, 'traverse': 3, 'xcopy': 3, 'peer': 3, 'build': 6, 'repeat': 5, 'churn': 3, 'fork': 1, 'var': 2, 'cube': 2, 'apply': 8, 'not': 1, 'ite': 3,
+    'bad': (1, [54, 65535, 65535]), 'full': 2, 'traverse': 3, 'xcopy': 3, 'peer': 3, 'build': 6, 'repeat': 5, 'churn': 3, 'fork': 1, 'var': 2, 'cube': 2, 'apply': 8, 'not': 1, 'ite': 3,
     'quantify': 3, 'let_const': 2, 'let_rename': 2, 'let_compose': 2,
     'add_expr': 2, 'incref': 3, 'decref': 3, 'decref_zero': 1, 'drop': 6,
     'gc': 6, 'gc_roots': 4, 'swap': 3, 'sift': 1, 'reorder_to': 1,
